@@ -96,8 +96,10 @@ func sectionKeys(rrs []dns.RR) []string {
 }
 
 // diffResponses compares a response with the reference (sections as multisets, owner-name case
-// folded); "" = equal.
-func diffResponses(got, want *dns.Msg, weighted bool) string {
+// folded); "" = equal. A section subject to weighted selection (wAns / wExtra) is compared by
+// shape: the non-address records exactly, the address records by count per family and by
+// membership in the declared address space of the generated data (10.g.g.1 .. 10.g.g.24).
+func diffResponses(got, want *dns.Msg, wAns, wExtra bool) string {
 	if got == nil || want == nil {
 		if got == nil && want == nil {
 			return ""
@@ -114,23 +116,41 @@ func diffResponses(got, want *dns.Msg, weighted bool) string {
 		return fmt.Sprintf("question differs: %v vs %v", got.Question, want.Question)
 	}
 	secs := []struct {
-		name string
-		a, b []dns.RR
-	}{{"answer", got.Answer, want.Answer}, {"authority", got.Ns, want.Ns}, {"additional", got.Extra, want.Extra}}
+		name     string
+		a, b     []dns.RR
+		weighted bool
+	}{{"answer", got.Answer, want.Answer, wAns}, {"authority", got.Ns, want.Ns, false}, {"additional", got.Extra, want.Extra, wExtra}}
 	for _, s := range secs {
-		if weighted && s.name == "answer" {
-			if len(s.a) != len(s.b) {
-				return fmt.Sprintf("answer has %d records, cache-off handler gives %d", len(s.a), len(s.b))
-			}
-			for _, rr := range s.a {
-				a, ok := rr.(*dns.A)
-				if !ok || a.A.To4() == nil || a.A.To4()[3] < 21 || a.A.To4()[3] > 23 {
-					return fmt.Sprintf("answer record %v is not one of the declared candidates", rr)
+		a, b := s.a, s.b
+		if s.weighted {
+			split := func(rrs []dns.RR) (rest []dns.RR, n4, n6 int, bad string) {
+				for _, rr := range rrs {
+					switch x := rr.(type) {
+					case *dns.A:
+						n4++
+						ip := x.A.To4()
+						if ip == nil || ip[0] != 10 || ip[3] == 0 || ip[3] > 24 {
+							bad = rr.String()
+						}
+					case *dns.AAAA:
+						n6++
+					default:
+						rest = append(rest, rr)
+					}
 				}
+				return
 			}
-			continue
+			ra, a4, a6, bad := split(a)
+			rb, b4, b6, _ := split(b)
+			if bad != "" {
+				return fmt.Sprintf("%s record %s is not one of the declared candidates", s.name, bad)
+			}
+			if a4 != b4 || a6 != b6 {
+				return fmt.Sprintf("%s has %d A / %d AAAA records, cache-off handler gives %d / %d", s.name, a4, a6, b4, b6)
+			}
+			a, b = ra, rb
 		}
-		ka, kb := sectionKeys(s.a), sectionKeys(s.b)
+		ka, kb := sectionKeys(a), sectionKeys(b)
 		if strings.Join(ka, "\n") != strings.Join(kb, "\n") {
 			return fmt.Sprintf("%s section differs:\n  cache on : %v\n  cache off: %v", s.name, ka, kb)
 		}
@@ -261,7 +281,10 @@ func runC12(t *testing.T, sc SrvScenario, keep bool) *core.Result {
 			}
 			continue
 		}
-		if d := diffResponses(q.Resp, want, gen.Weighted(q.Q.Q)); d != "" {
+		if (gen.Weighted(q.Q.Q) || gen.WeightedExtra(q.Q.Q)) && sc.WRSTimeout == 0 && q.Counters["DNS_cache.hit"] > 0 {
+			res.Add("weighted-answer-cached", "weighted-answer-cached", fmt.Sprintf("client %d query %d (%s): an answer subject to weighted selection was served from the cache although no WRS timeout is configured", q.Client, q.Idx, describeQ(q)))
+		}
+		if d := diffResponses(q.Resp, want, gen.Weighted(q.Q.Q), gen.WeightedExtra(q.Q.Q)); d != "" {
 			via := "computed"
 			if q.Counters["DNS_cache.hit"] > 0 {
 				via = "cache-hit"
